@@ -562,7 +562,7 @@ def work(shard):
                         P.counters['loop oracle skipped: ' + skip] += 1
                     if L is not None and sit.startswith('trees=0') and pname != 'minimal':
                         P.counters['placement produced no instance'] += 1
-                    P.out('%s|%s%s|%s' % (lclass(L), pname, ename, sit))
+                    P.out('%s|%s|%s' % (lclass(L), pname, sit))
                     case = {'entry': list(entry), 'plan': full, 'loop': L, 'text': text}
                     for k, m in v:
                         P.bad(k, case, '%s %s%s: %s' % (entry[4], pname, ename, m))
@@ -617,4 +617,4 @@ def run(R):
                      'when the walker matched a different map node than the grammar (a C02 matter) only the flatten, line and position oracles are applied',
                      'wrapper loops that begin with a loop (e.g. DETAIL) must appear in the chain as the map path has them, but no instance identity is demanded of them',
                      'plain segment nodes are compared by content, position and line only (their parent attribute is a C10 matter)']
-    return R.finish(LEVEL, 'one execution = one (document, loop id) read completely by iter_segments; distinct = (loop class, placement, envelope variant, expected tree situation)', exhaustive=True)
+    return R.finish(LEVEL, 'one execution = one (document, loop id) read completely by iter_segments; distinct = (loop class, placement or corpus plan kind, expected tree situation)', exhaustive=True)
